@@ -64,6 +64,9 @@ def _case(draw):
                     for key in ("unwatch_on_call", "dup_of"):
                         if w.get(key) is not None and w[key] > k and w is not ws[k]:
                             w[key] += 1
+    for w in ws:
+        if not w["script"] and w.get("unwatch_on_call") is None and w.get("dup_of") is None and draw(st.integers(0, 7)) == 0:
+            w["raise_skip"] = True          # the callback ends by raising param.Skip: everyone else is served as usual
     ops = draw(st.lists(_ops(fam), min_size=1, max_size=10))
     if draw(st.integers(0, 2)) == 0:
         # a class-level watcher that is registered (and later removed) through the subclass; whom the class / subclass
